@@ -34,6 +34,12 @@ def gen(rng, ctx):
                             "EETIMEDOUT", "A,EEAGAIN", "P3,P3,P3", framing.rand_sans(rng, len(m) + 4)])
             ops.append("S %s %s" % (hexs(m), a))
             ctx.count("c03.send.%s" % ("zero" if not m else "over" if len(m) > 65535 else "max" if len(m) > 65000 else "small"))
+            if rng.chance(1, 6):
+                # a length the size check must refuse whatever its width: around 2^31, 2^32 (+ a valid remainder), 2^63, 2^64-1
+                big = rng.choice([2 ** 31, 2 ** 32 - 1, 2 ** 32, 2 ** 32 + 1, 2 ** 32 + 9, 2 ** 32 + 65535, 2 ** 32 + 65536, 2 ** 33 + 3,
+                                  2 ** 40 + 1, 2 ** 63, 2 ** 63 + 2, 2 ** 64 - 1])
+                ops.append("SL %d %s" % (big, a))
+                ctx.count("c03.send.huge")
         elif r < 8:
             ops.append("F %s ok" % rng.choice(["-", "A", "P1", "P2,P2", "EEAGAIN"]))
         elif r < 9:
